@@ -369,6 +369,18 @@ theorem C05_setfast_keeps_record (s : State) (l : List Nat) (x : Nat) (hx : x < 
     (copyCells s l).2.cells.kind.get x = s.cells.kind.get x ∧ (copyCells s l).2.cells.val.get x = s.cells.val.get x :=
   copyCells_frame s l ([], s) (Nat.le_refl _) (fun _ _ => ⟨rfl, rfl⟩) x hx
 
+/-- **`end <pending result>` inside the call.**  The started thread ends while only the host's `returnValue`
+    (`r`) and the VM's `m_ReturnValue` (`a`) share its result cell, with a value `tmp` that is itself a pending
+    result (kind Pointer: the result cell of a helper thread that still waits).  Afterwards `returnValue` *is*
+    that pending result — kind Pointer, the helper's holder — so it is not None and `Execute(Event&)` appends it
+    to the record; being a live Pointer variable it is listed by the helper's holder (`C05_every_sharer_listed`)
+    and receives the helper's value when the helper ends (`C05_result_reaches_every_sharer`). -/
+theorem C05_end_pending_result_handed_over {s : State} {a tmp r : Nat} (hp : PtrCell.isPtr s.cells a = true)
+    (hk : s.cells.kind.get tmp = 2) (hl : PtrCell.listOf s.cells (s.cells.val.get a) = [r, a])
+    (hra : r ≠ a) (hrt : r ≠ tmp) (hrn : r ≠ s.nextCell) (hns : (endFrom s a tmp).stuck = false) :
+    (endFrom s a tmp).cells.kind.get r = 2 ∧ (endFrom s a tmp).cells.val.get r = s.cells.val.get tmp :=
+  endFrom_pending_two hp hk hl hra hrt hrn hns
+
 /-! non-vacuity: `level.v0` holds 7 from an earlier call; a call without arguments binds `level.v0` -/
 def demoTh : Th := { tid := 100, inst := 1, sec := 1, ret := 9 }
 def staleState : State := setLit (getOrCreate {} demoTh ⟨1, 0⟩).2 1 (some 7)
@@ -381,5 +393,17 @@ example : (bindAll staleState demoTh [⟨1, 0⟩]).1.stuck = false ∧
     (bindAll staleState demoTh [⟨1, 0⟩]).1.cells.kind.get 1 = 0 := by
   simp [bindAll, bindOne, setNil, staleState, setLit, getOrCreate, lookup, key, ap, PtrCell.step, PtrCell.writeInt,
     PtrCell.writeNone, PtrCell.setData, PtrCell.clearInternal, PtrCell.isPtr, Mem.get_set, demoTh]
+
+/-! non-vacuity: returnValue = 1 and m_ReturnValue = 2 share holder 1, cell 3 is the pending result of a helper -/
+def handOver : State :=
+  ap (ap (ap (ap (ap (ap { nextCell := 4 } (.newCell 1)) (.newPointer 1)) (.newCell 2)) (.assign 1 2)) (.newCell 3)) (.newPointer 3)
+
+example : PtrCell.isPtr handOver.cells 2 = true ∧ handOver.cells.kind.get 3 = 2 ∧
+    PtrCell.listOf handOver.cells (handOver.cells.val.get 2) = [1, 2] ∧ handOver.nextCell = 4 ∧
+    (endFrom handOver 2 3).stuck = false ∧ (endFrom handOver 2 3).cells.kind.get 1 = 2 ∧
+    (endFrom handOver 2 3).cells.val.get 1 = 2 := by
+  simp [handOver, endFrom, setNil, ap, PtrCell.step, PtrCell.isPtr, PtrCell.listOf, PtrCell.setData, PtrCell.writeNone,
+    PtrCell.clearInternal, PtrCell.holderRemove, Morfuse.Sched.Tbl.push, Morfuse.Sched.Tbl.removeAll,
+    Morfuse.Sched.Tbl.find, Morfuse.Sched.Tbl.getD, Morfuse.Sched.Tbl.removeKey, Mem.get_set]
 
 end Morfuse.CallRec
